@@ -15,7 +15,7 @@ from mzverif.props import C06
 
 ID = "C15"
 LEVEL = "exploration"
-TECHNIQUE = "exact combinatorics (explicit product of the parameter space as reference for every element family and, thorough tier, for all 5,878,656 tokenizers), metamorphic restriction of the enumeration to random sub-families, injectivity of names/hashes, differential across interpreters with different PYTHONHASHSEED, save/load round trips"
+TECHNIQUE = "explicit product of the parameter space as reference: every element family exhaustively, metamorphic restriction of the real enumeration, validity predicate on the raw space (340 step-tokenizer tuples), exhaustive Hamming neighbourhood of the legacy images, identity under use / save-load / ZANJ, differential across interpreters with different hash seeds, visiting orders and call histories; thorough: the full space of 5,878,656 tokenizers"
 RULE = (
     "family case = element family (9); restriction case = (subset of coordinate, adjacency and path configurations accepted by extra "
     "validation functions) -> the enumeration must be exactly the explicit product; identity case = tokenizer parameter tuple (name, "
